@@ -22,12 +22,11 @@ callback):
   `refine_step_partial`, `refine_step_partial_of_Inv`, `refine_seq_partial`,
   `cursor_correct_partial`; `new_inv`, `inv_implies_global`, `endsOK_of_inv`
 NOT proved (correspondence only, see design_notes/C11.md): `new_from_ops`, sub-variable sweeps
-(`Varlist` cursors, heap order), `fill_args_at_p_with_hint`, `get_nth_p`, `get_count` without
-counters.
+(`Varlist` cursors, heap order), `fill_args_at_p_with_hint`, `get_nth_p`.
 EXCLUDED by `WF` (documented witnesses below): ops with a repeated variable, ops without
 variables.
 -/
-import QmcProofs.FastOpsOps
+import QmcProofs.FastOpsCount
 
 namespace Qmc.C11
 open Qmc Qmc.FastOps
@@ -35,11 +34,11 @@ open Qmc Qmc.FastOps
 /-! ## getters -/
 
 theorem getters_canon_aux (c : FastOps) (nv : Nat) (nb : Option Nat) (s : Slots)
-    (hc : c = canon nv nb s) :
+    (hc : c = canon nv nb s) (hwf : WF nv nb s) :
     c.getN = countOps s ∧
     c.getCutoff = s.length ∧
     (∀ p, c.getPth p = slotAt s p) ∧
-    (∀ k b, nb = some k → b < k → c.getCount b = countBond s b) ∧
+    (∀ b, c.getCount b = countBond s b) ∧
     c.getFirstP = firstOcc (occ s) s.length ∧
     c.getLastP = lastOcc (occ s) s.length ∧
     (∀ v, v < nv →
@@ -54,9 +53,8 @@ theorem getters_canon_aux (c : FastOps) (nv : Nat) (nb : Option Nat) (s : Slots)
   subst hc
   refine ⟨rfl, by simp [getCutoff], ?_, ?_, ?_, ?_, ?_, ?_⟩
   · intro p; rw [← slotAt_abs, abs_canon]
-  · intro k b hk hb
-    subst hk
-    exact getCount_canon_counters nv k s b hb
+  · intro b
+    exact getCount_canon nv nb s hwf b
   · exact getFirstP_canon nv nb s
   · exact getLastP_canon nv nb s
   · intro v hv
@@ -80,7 +78,7 @@ theorem getters_eq_scan (c : FastOps) (h : Inv c) :
     c.getN = countOps c.abs ∧
     c.getCutoff = c.abs.length ∧
     (∀ p, c.getPth p = slotAt c.abs p) ∧
-    (∀ k b, c.nbonds = some k → b < k → c.getCount b = countBond c.abs b) ∧
+    (∀ b, c.getCount b = countBond c.abs b) ∧
     c.getFirstP = firstOcc (occ c.abs) c.abs.length ∧
     c.getLastP = lastOcc (occ c.abs) c.abs.length ∧
     (∀ v, v < c.getNvars →
@@ -92,7 +90,7 @@ theorem getters_eq_scan (c : FastOps) (h : Inv c) :
       ∀ k v, nd.op.vars[k]? = some v →
         getPreviousPForRelVar k nd = prevRel c.abs v p ∧
         getNextPForRelVar k nd = nextRel c.abs v p) :=
-  getters_canon_aux c c.getNvars c.nbonds c.abs h.1
+  getters_canon_aux c c.getNvars c.nbonds c.abs h.1 h.2
 
 /-- corollary: every algorithm written against the container interface behaves identically on
 the optimized container and on the container recomputed from the naive slot array -/
@@ -360,6 +358,22 @@ theorem getters_after_history {τ : Type} (nv : Nat) (nb : Option Nat) (ms : Lis
   rw [h2] at g
   exact ⟨g.1, g.2.2.2.2.1, g.2.2.2.2.2.1, g.2.2.1⟩
 
+/-! ## statements NOT proved (kept visible; tied to the real code by correspondence only) -/
+
+/-- the naive slot array of an op list -/
+def slotsOf (l : List (Nat × Op)) : Slots :=
+  l.foldl (fun s po => s.set po.1 (some po.2)) (List.replicate ((l.map (·.1)).foldl max 0 + 1) none)
+
+/-- `FastOps::new_from_ops` on a strictly increasing list of well-formed ops builds the canonical
+container (NOT proved; every `install` line of the correspondence compares all pointers). -/
+def InstallStatement : Prop :=
+  ∀ (nv : Nat) (l : List (Nat × Op)), l ≠ [] → (l.map (·.1)).Pairwise (· < ·) →
+    (∀ x ∈ l, OpOK nv none x.2) → FastOps.newFromOps nv l = canon nv none (slotsOf l)
+
+/-- `get_nth_p(k)` is the `k % n`-th occupied slot (NOT proved; correspondence token T10). -/
+def NthStatement : Prop :=
+  ∀ (c : FastOps), Inv c → 0 < c.n → ∀ k, (occPositions c.abs)[k % c.n]? = some (c.getNthP k)
+
 /-! ## non-vacuity and excluded points -/
 
 def opA : Op := Op.diagonal [0, 1] 1 [false, false] false
@@ -377,6 +391,17 @@ def demo : FastOps :=
 example : demo.abs = [none, none, none, some opC, some { opB with bond := 3 }, none] := by decide
 example : demo = canon 3 (some 4) demo.abs := by decide
 example : demo.n = 2 ∧ demo.pEnds = some (3, 4) ∧ demo.bondCounters = some [1, 0, 0, 1] := by decide
+
+example : FastOps.newFromOps 3 [(0, opA), (2, opC), (3, opB)] = canon 3 none (slotsOf [(0, opA), (2, opC), (3, opB)]) := by
+  decide
+example : demo.getNthP 0 = 3 ∧ demo.getNthP 1 = 4 ∧ demo.getNthP 5 = 4 := by decide
+
+/-- `Valid` is satisfiable by non-trivial mutations (hypotheses of `refine_step` are not vacuous) -/
+example : (Mut.setSlot 2 (some opA) : Mut Nat).Valid (applyC (FastOps.new 3 (some 4)) (.setCutoff 6 : Mut Nat)) := by
+  refine ⟨by decide, ?_⟩
+  intro op h
+  cases h
+  exact ⟨by decide, by decide, by decide, by intro k hk; cases hk; decide⟩
 
 /-- EXCLUDED POINT 1 (ops without variables): the early exit of `fill_args_at_p` leaves
 `last_p = None` although slot 0 is occupied; the next insertion corrupts the global chain.
